@@ -1,7 +1,400 @@
+// Package signersim checks C20: the file-backed validator signer never double-signs, across
+// restarts. One real SFilePV on a tmpfs directory is driven by a seeded sequence of vote and
+// proposal signing requests; the fault is a reload of the signer from its key and state files
+// between two requests (enumerated per sequence: none, all, every single position, sampled pairs)
+// plus the "crash right after release" probe: directly after a signature was handed out the state
+// file is read by a fresh instance and must already contain it.
 package signersim
 
-import "verifsim/chain"
+import (
+	"bytes"
+	"crypto/sha256"
+	"encoding/json"
+	"fmt"
+	"os"
+	"path/filepath"
+	"strings"
+	"time"
 
-func Explore(tier string, seed uint64, world int) *chain.WorldResult { return &chain.WorldResult{} }
-func Replay(tr *chain.Trace) *chain.WorldResult               { return &chain.WorldResult{} }
+	rcrypto "github.com/rigochain/rigo-go/types/crypto"
+	tmsecp "github.com/tendermint/tendermint/crypto/secp256k1"
+	tmproto "github.com/tendermint/tendermint/proto/tendermint/types"
+	tmtypes "github.com/tendermint/tendermint/types"
 
+	"verifsim/chain"
+	"verifsim/core"
+)
+
+const chainID = "verif-signer"
+
+type Req struct {
+	Kind  string `json:"kind"` // prevote | precommit | proposal
+	H     int64  `json:"h"`
+	R     int32  `json:"r"`
+	Block int    `json:"block"` // 0 nil, 1 A, 2 B
+	TsMs  int64  `json:"ts"`    // timestamp offset
+	POL   int32  `json:"pol,omitempty"`
+}
+
+type strace struct {
+	Reqs    []Req  `json:"reqs"`
+	Reload  []bool `json:"reload"` // reload before request i
+	KeySeed uint64 `json:"keySeed"`
+}
+
+func step(k string) int8 {
+	switch k {
+	case "proposal":
+		return 1
+	case "prevote":
+		return 2
+	}
+	return 3
+}
+
+func blockID(b int) tmtypes.BlockID {
+	if b == 0 {
+		return tmtypes.BlockID{}
+	}
+	h := sha256.Sum256([]byte{byte(b), 'b'})
+	p := sha256.Sum256([]byte{byte(b), 'p'})
+	return tmtypes.BlockID{Hash: h[:], PartSetHeader: tmtypes.PartSetHeader{Total: 1, Hash: p[:]}}
+}
+
+var t0 = time.Unix(1_700_000_000, 0).UTC()
+
+type hrs struct {
+	H int64
+	R int32
+	S int8
+}
+
+func (a hrs) less(b hrs) bool {
+	if a.H != b.H {
+		return a.H < b.H
+	}
+	if a.R != b.R {
+		return a.R < b.R
+	}
+	return a.S < b.S
+}
+
+type signedRec struct {
+	core []byte // sign bytes with the timestamp zeroed
+	sig  []byte
+	ts   time.Time
+}
+
+func voteOf(r Req, ts time.Time, addr []byte) *tmproto.Vote {
+	t := tmproto.PrevoteType
+	if r.Kind == "precommit" {
+		t = tmproto.PrecommitType
+	}
+	v := &tmtypes.Vote{Type: t, Height: r.H, Round: r.R, BlockID: blockID(r.Block), Timestamp: ts, ValidatorAddress: addr, ValidatorIndex: 0}
+	return v.ToProto()
+}
+
+func proposalOf(r Req, ts time.Time) *tmproto.Proposal {
+	p := &tmtypes.Proposal{Type: tmproto.ProposalType, Height: r.H, Round: r.R, POLRound: r.POL - 1, BlockID: blockID(1 + r.Block%2), Timestamp: ts}
+	return p.ToProto()
+}
+
+type runner struct {
+	dir       string
+	keyFile   string
+	stateFile string
+	pv        *rcrypto.SFilePV
+	viol      []*chain.Violation
+	probes    *chain.Probes
+	log       []string
+}
+
+func (r *runner) fail(i int, check, f string, a ...interface{}) {
+	r.viol = append(r.viol, &chain.Violation{Check: check, Props: []string{"C20"}, Height: int64(i), Detail: fmt.Sprintf("request %d: ", i) + fmt.Sprintf(f, a...)})
+}
+
+func run(t *strace, dir string) ([]*chain.Violation, *chain.Probes, []string) {
+	_ = os.RemoveAll(dir)
+	_ = os.MkdirAll(dir, 0o755)
+	defer os.RemoveAll(dir)
+	r := &runner{dir: dir, keyFile: filepath.Join(dir, "key.json"), stateFile: filepath.Join(dir, "state.json"), probes: chain.NewProbes()}
+	kb := sha256.Sum256([]byte(fmt.Sprintf("verif-signer-key-%d", t.KeySeed)))
+	priv := tmsecp.PrivKey(kb[:])
+	r.pv = rcrypto.NewSFilePV(priv, r.keyFile, r.stateFile)
+	r.pv.SaveWith(nil)
+	pub := priv.PubKey()
+	addr := pub.Address()
+
+	var last *hrs
+	signed := map[hrs]*signedRec{}
+	for i, q := range t.Reqs {
+		if i < len(t.Reload) && t.Reload[i] {
+			r.pv = rcrypto.LoadSFilePV(r.keyFile, r.stateFile, nil)
+			r.probes.Hit("fault.reload")
+		}
+		cur := hrs{q.H, q.R, step(q.Kind)}
+		ts := t0.Add(time.Duration(q.TsMs) * time.Millisecond)
+		var sig []byte
+		var outTs time.Time
+		var signBytes, coreBytes []byte
+		var err error
+		func() {
+			defer func() {
+				if p := recover(); p != nil {
+					err = fmt.Errorf("panic: %v", p)
+					r.fail(i, "signer.panic", "%v", p)
+				}
+			}()
+			if q.Kind == "proposal" {
+				p := proposalOf(q, ts)
+				err = r.pv.SignProposal(chainID, p)
+				sig, outTs = p.Signature, p.Timestamp
+				signBytes = tmtypes.ProposalSignBytes(chainID, p)
+				pz := proposalOf(q, time.Time{})
+				coreBytes = tmtypes.ProposalSignBytes(chainID, pz)
+			} else {
+				v := voteOf(q, ts, addr)
+				err = r.pv.SignVote(chainID, v)
+				sig, outTs = v.Signature, v.Timestamp
+				signBytes = tmtypes.VoteSignBytes(chainID, v)
+				vz := voteOf(q, time.Time{}, addr)
+				coreBytes = tmtypes.VoteSignBytes(chainID, vz)
+			}
+		}()
+		if len(r.viol) > 0 {
+			break
+		}
+		prev := signed[cur]
+		if err != nil || len(sig) == 0 {
+			r.log = append(r.log, fmt.Sprintf("%d %v refused", i, cur))
+			r.probes.Hit("refused")
+			// only the latest signed message must be answerable again (an older HRS is a regression)
+			if prev != nil && last != nil && *last == cur && bytes.Equal(prev.core, coreBytes) {
+				r.fail(i, "signer.no-resign", "the same message (up to timestamp) as the one already signed at %v was refused: %v", cur, err)
+				break
+			}
+			if prev == nil && (last == nil || last.less(cur)) {
+				// a strictly newer HRS: refusal is not a safety violation, but it is counted
+				r.probes.Hit("refused.fresh")
+			}
+			continue
+		}
+		r.log = append(r.log, fmt.Sprintf("%d %v signed %x", i, cur, sig[:4]))
+		if !pub.VerifySignature(signBytes, sig) {
+			r.fail(i, "signer.badsig", "released signature does not verify for %v", cur)
+			break
+		}
+		if prev != nil {
+			r.probes.Hit("resign.same-hrs")
+			if !bytes.Equal(prev.core, coreBytes) {
+				r.fail(i, "signer.double-sign", "a second, different message was signed at %v", cur)
+				break
+			}
+			if !bytes.Equal(prev.sig, sig) || !prev.ts.Equal(outTs) {
+				r.fail(i, "signer.resign-differs", "re-signing at %v returned a different signature/timestamp than the original", cur)
+				break
+			}
+		} else {
+			if last != nil && !last.less(cur) {
+				if *last == cur {
+					r.fail(i, "signer.double-sign", "signed at %v although a signature for that HRS was already released (lost record)", cur)
+				} else {
+					r.fail(i, "signer.regression", "signed at %v after having signed at %v", cur, *last)
+				}
+				break
+			}
+			c := cur
+			last = &c
+			signed[cur] = &signedRec{core: coreBytes, sig: append([]byte(nil), sig...), ts: outTs}
+			r.probes.Hit("signed.fresh")
+			// crash right after release: a fresh process must already see this signature on disk
+			fresh := rcrypto.LoadSFilePV(r.keyFile, r.stateFile, nil)
+			ls := fresh.LastSignState
+			if ls.Height != cur.H || ls.Round != cur.R || ls.Step != cur.S || !bytes.Equal(ls.Signature, sig) || !bytes.Equal(ls.SignBytes, signBytes) {
+				r.fail(i, "signer.not-durable", "signature for %v was released but the state file holds %d/%d/%d", cur, ls.Height, ls.Round, ls.Step)
+				break
+			}
+		}
+	}
+	return r.viol, r.probes, r.log
+}
+
+func generate(rng *core.Rand, tier string) *strace {
+	n := rng.Range(6, 24)
+	if tier == "thorough" {
+		n = rng.Range(10, 40)
+	}
+	t := &strace{KeySeed: rng.Uint64() % 1000}
+	cur := hrs{1, 0, 1}
+	kinds := []string{"proposal", "prevote", "precommit"}
+	for i := 0; i < n; i++ {
+		q := Req{TsMs: int64(i * 100)}
+		switch rng.Pick([]float64{5, 2.5, 1.5, 1.5, 1}) {
+		case 0: // advance
+			switch rng.Intn(4) {
+			case 0:
+				cur.H++
+				cur.R, cur.S = 0, int8(rng.Range(1, 3))
+			case 1:
+				cur.R++
+				cur.S = int8(rng.Range(1, 3))
+			default:
+				if cur.S < 3 {
+					cur.S++
+				} else {
+					cur.R++
+					cur.S = 1
+				}
+			}
+			q.H, q.R, q.Kind = cur.H, cur.R, kinds[cur.S-1]
+			q.Block = rng.Intn(3)
+		case 1: // repeat the previous request exactly or with another timestamp
+			if len(t.Reqs) > 0 {
+				q = t.Reqs[len(t.Reqs)-1]
+				if rng.Chance(0.6) {
+					q.TsMs += int64(rng.Range(1, 5000))
+				}
+			} else {
+				q.H, q.R, q.Kind = 1, 0, "prevote"
+			}
+		case 2: // conflict at the same HRS: another block
+			if len(t.Reqs) > 0 {
+				q = t.Reqs[len(t.Reqs)-1]
+				q.Block = (q.Block + 1 + rng.Intn(2)) % 3
+				if q.Kind == "proposal" && rng.Chance(0.5) {
+					q.POL = (q.POL + 1) % 3
+				}
+			} else {
+				q.H, q.R, q.Kind = 1, 0, "precommit"
+			}
+		case 3: // regression
+			q.H = int64(rng.Range(1, int(cur.H)))
+			q.R = int32(rng.Intn(int(cur.R) + 1))
+			q.Kind = kinds[rng.Intn(3)]
+			q.Block = rng.Intn(3)
+		case 4: // an older request again
+			if len(t.Reqs) > 0 {
+				q = t.Reqs[rng.Intn(len(t.Reqs))]
+			} else {
+				q.H, q.R, q.Kind = 1, 0, "prevote"
+			}
+		}
+		if q.H < 1 {
+			q.H = 1
+		}
+		t.Reqs = append(t.Reqs, q)
+	}
+	t.Reload = make([]bool, len(t.Reqs))
+	return t
+}
+
+func scratch(n int) string {
+	return filepath.Join("/dev/shm", fmt.Sprintf("verif-%d", os.Getpid()), fmt.Sprintf("signer%d", n))
+}
+
+func result(tr *chain.Trace, t *strace, viol []*chain.Violation, probes *chain.Probes, log []string, variants int, start time.Time) *chain.WorldResult {
+	res := &chain.WorldResult{Seed: tr.Seed, World: tr.World, Property: "C20", Blocks: variants, TxTotal: len(t.Reqs) * variants, TxOK: probes.C["signed.fresh"],
+		Replicas: 1, Violations: viol, Probes: probes.C, WallMs: time.Since(start).Milliseconds()}
+	var ks []string
+	for _, q := range t.Reqs {
+		ks = append(ks, fmt.Sprintf("%s/%d/%d/%d", q.Kind[:3], q.H, q.R, q.Block))
+	}
+	res.Shape = fmt.Sprintf("%x", core.Derive(0, strings.Join(ks, ","), 0).Uint64())
+	res.LogHash = fmt.Sprintf("%x", core.Derive(0, strings.Join(log, "\n"), uint64(len(viol))).Uint64())
+	res.NonTrivial = probes.C["fault.reload"] >= 1 && probes.C["resign.same-hrs"]+probes.C["refused"] >= 1 && probes.C["signed.fresh"] >= 2
+	res.Sample = fmt.Sprintf("seed=%d world=%d requests=[%s] reload-variants=%d", tr.Seed, tr.World, strings.Join(ks, " "), variants)
+	if len(viol) > 0 {
+		res.Trace = tr
+	}
+	return res
+}
+
+// Explore: one seeded request sequence, executed once per reload variant (fault enumeration).
+func Explore(tier string, seed uint64, world int) *chain.WorldResult {
+	start := time.Now()
+	rng := core.Derive(seed, "signer", uint64(world))
+	t := generate(rng, tier)
+	n := len(t.Reqs)
+	var variants [][]bool
+	none := make([]bool, n)
+	all := make([]bool, n)
+	for i := range all {
+		all[i] = true
+	}
+	variants = append(variants, none, all)
+	for i := 1; i < n; i++ { // every single reload position
+		v := make([]bool, n)
+		v[i] = true
+		variants = append(variants, v)
+	}
+	pairs := 8
+	if tier == "thorough" {
+		pairs = 60
+	}
+	for k := 0; k < pairs && n > 2; k++ {
+		v := make([]bool, n)
+		v[rng.Range(1, n-1)] = true
+		v[rng.Range(1, n-1)] = true
+		variants = append(variants, v)
+	}
+	total := chain.NewProbes()
+	var log []string
+	tr := &chain.Trace{Version: 1, Engine: "signer-sim", Seed: seed, World: world}
+	for vi, v := range variants {
+		t.Reload = v
+		viol, probes, lg := run(t, scratch(world))
+		for k, c := range probes.C {
+			total.Add(k, c)
+		}
+		if vi == 0 {
+			log = lg
+		}
+		if len(viol) > 0 {
+			t = shrink(t, viol[0].Check, world)
+			viol, probes, lg = run(t, scratch(world))
+			b, _ := json.Marshal(t)
+			tr.Note = string(b)
+			if len(viol) > 0 {
+				tr.Expect = viol[0].Check
+			}
+			return result(tr, t, viol, probes, lg, vi+1, start)
+		}
+	}
+	b, _ := json.Marshal(t)
+	tr.Note = string(b)
+	return result(tr, t, nil, total, log, len(variants), start)
+}
+
+func shrink(t *strace, check string, world int) *strace {
+	best := t
+	for i := len(best.Reqs) - 1; i >= 0; i-- {
+		c := &strace{KeySeed: best.KeySeed}
+		c.Reqs = append(append([]Req(nil), best.Reqs[:i]...), best.Reqs[i+1:]...)
+		c.Reload = append(append([]bool(nil), best.Reload[:i]...), best.Reload[i+1:]...)
+		v, _, _ := run(c, scratch(world))
+		if len(v) > 0 && v[0].Check == check {
+			best = c
+		}
+	}
+	for i := range best.Reload {
+		if best.Reload[i] {
+			c := &strace{KeySeed: best.KeySeed, Reqs: best.Reqs, Reload: append([]bool(nil), best.Reload...)}
+			c.Reload[i] = false
+			v, _, _ := run(c, scratch(world))
+			if len(v) > 0 && v[0].Check == check {
+				best = c
+			}
+		}
+	}
+	return best
+}
+
+func Replay(tr *chain.Trace) *chain.WorldResult {
+	start := time.Now()
+	t := &strace{}
+	if err := json.Unmarshal([]byte(tr.Note), t); err != nil {
+		return &chain.WorldResult{Violations: []*chain.Violation{{Check: "harness.trace", Props: []string{"HARNESS"}, Detail: err.Error()}}}
+	}
+	viol, probes, log := run(t, scratch(0))
+	return result(tr, t, viol, probes, log, 1, start)
+}
